@@ -230,4 +230,170 @@ theorem fr_processQueue (g : Graph) (s : State) : Fr s (processQueue g s) := by
     · exact ⟨h2.1, h2.2.1, h2.2.2⟩
     · exact h2
 
+/-! ### `check_auto_shutdown` and `is_stalled` read as propositions over the pool -/
+
+/-- `p` is beyond the stop point in effect (`TaskPool.stop_point`) -/
+def beyondB (g : Graph) (p : Int) : Bool := match g.stopPoint with | some sp => p > sp | none => false
+
+/-- no task is preparing, submitted or running -/
+def NoActive (s : State) : Prop :=
+  ∀ x ∈ s.pool, x.status ≠ .preparing ∧ x.status ≠ .submitted ∧ x.status ≠ .running
+
+/-- no waiting task has been released from the runahead pool -/
+def NoReleasedWaiting (s : State) : Prop := ∀ x ∈ s.pool, ¬ (x.status = .waiting ∧ x.runahead = false)
+
+/-- no released waiting task has all its prerequisites satisfied -/
+def NoReadyWaiting (s : State) : Prop :=
+  ∀ x ∈ s.pool, ¬ (x.status = .waiting ∧ x.runahead = false ∧ x.prereqsSatisfied = true)
+
+/-- finished but incomplete -/
+def Incomplete (g : Graph) (x : Proxy) : Prop :=
+  x.status.isFinal = true ∧ ∃ t, g.task? x.name = some t ∧ isComplete t x.done = false
+
+/-- within the stop point, with an unsatisfied prerequisite that waits for an output within the stop point -/
+def PartiallySatisfied (g : Graph) (x : Proxy) : Prop :=
+  beyondB g x.pt = false ∧ ∃ pr ∈ x.pre, pr.isSatisfied = false ∧ ∃ a ∈ pr.atoms, a.2 = false ∧ beyondB g a.1.pt = false
+
+def ShutdownOK (g : Graph) (s : State) : Prop :=
+  NoActive s ∧ NoReleasedWaiting s ∧ (∀ x ∈ s.pool, ¬ Incomplete g x) ∧ (∀ x ∈ s.pool, ¬ PartiallySatisfied g x)
+
+def StallSpec (g : Graph) (s : State) : Prop :=
+  NoActive s ∧ NoReadyWaiting s ∧ ((∃ x ∈ s.pool, Incomplete g x) ∨ (∃ x ∈ s.pool, PartiallySatisfied g x))
+
+def busyB (x : Proxy) : Bool :=
+  x.status.isActive || x.status == .preparing || (x.status == .waiting && !x.runahead && x.prereqsSatisfied)
+
+def incompleteB (g : Graph) (x : Proxy) : Bool :=
+  x.status.isFinal && (match g.task? x.name with | some t => !isComplete t x.done | none => false)
+
+def partialB (g : Graph) (x : Proxy) : Bool :=
+  !beyondB g x.pt && x.pre.any fun pr => !pr.isSatisfied && pr.atoms.any (fun a => !a.2 && !beyondB g a.1.pt)
+
+def shutB (x : Proxy) : Bool :=
+  x.status == .preparing || x.status == .submitted || x.status == .running || (x.status == .waiting && !x.runahead)
+
+theorem isStalled_eq (g : Graph) (s : State) :
+    isStalled g s = if s.pool.any busyB then false else (s.pool.any (incompleteB g) || s.pool.any (partialB g)) := rfl
+
+theorem checkAutoShutdown_eq (g : Graph) (s : State) :
+    checkAutoShutdown g s =
+      if (checkStalled g s).stalled then (checkStalled g s, false)
+      else if (checkStalled g s).pool.any shutB then (checkStalled g s, false) else (checkStalled g s, true) := rfl
+
+theorem incompleteB_iff (g : Graph) (x : Proxy) : incompleteB g x = true ↔ Incomplete g x := by
+  unfold incompleteB Incomplete
+  cases ht : g.task? x.name with
+  | none => simp
+  | some t => simp
+
+theorem partialB_iff (g : Graph) (x : Proxy) : partialB g x = true ↔ PartiallySatisfied g x := by
+  unfold partialB PartiallySatisfied
+  simp only [Bool.and_eq_true, Bool.not_eq_true', List.any_eq_true]
+  constructor
+  · rintro ⟨h1, pr, hpr, h2, a, ha, h3, h4⟩
+    exact ⟨h1, pr, hpr, h2, a, ha, h3, h4⟩
+  · rintro ⟨h1, pr, hpr, h2, a, ha, h3, h4⟩
+    exact ⟨h1, pr, hpr, h2, a, ha, h3, h4⟩
+
+theorem busyB_false_iff (x : Proxy) : busyB x = false ↔
+    (x.status ≠ .preparing ∧ x.status ≠ .submitted ∧ x.status ≠ .running) ∧
+    ¬ (x.status = .waiting ∧ x.runahead = false ∧ x.prereqsSatisfied = true) := by
+  unfold busyB
+  cases hs : x.status <;> simp [Status.isActive]
+
+theorem shutB_false_iff (x : Proxy) : shutB x = false ↔
+    (x.status ≠ .preparing ∧ x.status ≠ .submitted ∧ x.status ≠ .running) ∧
+    ¬ (x.status = .waiting ∧ x.runahead = false) := by
+  unfold shutB
+  cases hs : x.status <;> simp
+
+theorem isStalled_iff (g : Graph) (s : State) : isStalled g s = true ↔ StallSpec g s := by
+  rw [isStalled_eq]
+  unfold StallSpec NoActive NoReadyWaiting
+  constructor
+  · intro h
+    split at h
+    · simp at h
+    · rename_i hb
+      have hb' : ∀ x ∈ s.pool, busyB x = false := by
+        intro x hx
+        cases hbx : busyB x with
+        | false => rfl
+        | true => exact absurd (List.any_eq_true.mpr ⟨x, hx, hbx⟩) hb
+      refine ⟨fun x hx => ((busyB_false_iff x).mp (hb' x hx)).1, fun x hx => ((busyB_false_iff x).mp (hb' x hx)).2, ?_⟩
+      simp only [Bool.or_eq_true, List.any_eq_true] at h
+      rcases h with ⟨x, hx, hi⟩ | ⟨x, hx, hp⟩
+      · exact Or.inl ⟨x, hx, (incompleteB_iff g x).mp hi⟩
+      · exact Or.inr ⟨x, hx, (partialB_iff g x).mp hp⟩
+  · rintro ⟨h1, h2, h3⟩
+    have hb : ¬ (s.pool.any busyB = true) := by
+      intro hb
+      obtain ⟨x, hx, hbx⟩ := List.any_eq_true.mp hb
+      have := (busyB_false_iff x).mpr ⟨h1 x hx, h2 x hx⟩
+      rw [this] at hbx; exact absurd hbx (by simp)
+    rw [if_neg hb]
+    simp only [Bool.or_eq_true, List.any_eq_true]
+    rcases h3 with ⟨x, hx, hi⟩ | ⟨x, hx, hp⟩
+    · exact Or.inl ⟨x, hx, (incompleteB_iff g x).mpr hi⟩
+    · exact Or.inr ⟨x, hx, (partialB_iff g x).mpr hp⟩
+
+theorem checkStalled_pool (g : Graph) (s : State) : (checkStalled g s).pool = s.pool := by
+  unfold checkStalled; split
+  · rfl
+  · split <;> rfl
+
+theorem checkStalled_stop (g : Graph) (s : State) : (checkStalled g s).stop = s.stop ∧
+    (checkStalled g s).launched = s.launched := by
+  unfold checkStalled; split
+  · exact ⟨rfl, rfl⟩
+  · split <;> exact ⟨rfl, rfl⟩
+
+/-- `checkStalled` raises the flag only when `isStalled` holds -/
+theorem checkStalled_stalled (g : Graph) (s : State) :
+    (checkStalled g s).stalled = true → s.stalled = true ∨ isStalled g s = true := by
+  unfold checkStalled
+  split
+  · rename_i h; intro _; exact Or.inl h
+  · split
+    · rename_i h; intro _; exact Or.inr h
+    · rename_i h _; intro h'; exact absurd h' h
+
+/-- an automatic shutdown is decided only in a pool satisfying `ShutdownOK`, and the decision does not alter the state -/
+theorem autoShutdown_sound (g : Graph) (s : State) (h : (checkAutoShutdown g s).2 = true) :
+    ShutdownOK g s ∧ (checkAutoShutdown g s).1.pool = s.pool := by
+  rw [checkAutoShutdown_eq] at h ⊢
+  split at h
+  · simp at h
+  · rename_i hst
+    split at h
+    · simp at h
+    · rename_i hsh
+      rw [checkStalled_pool] at hsh
+      have hsh' : ∀ x ∈ s.pool, shutB x = false := by
+        intro x hx
+        cases hbx : shutB x with
+        | false => rfl
+        | true => exact absurd (List.any_eq_true.mpr ⟨x, hx, hbx⟩) hsh
+      have hna : NoActive s := fun x hx => ((shutB_false_iff x).mp (hsh' x hx)).1
+      have hnr : NoReleasedWaiting s := fun x hx => ((shutB_false_iff x).mp (hsh' x hx)).2
+      -- not stalled: the flag is down after the check, so `isStalled` is false
+      have hns : isStalled g s = false := by
+        cases hi : isStalled g s with
+        | false => rfl
+        | true =>
+          exfalso; apply hst
+          unfold checkStalled
+          split
+          · assumption
+          · simp [hi]
+      refine ⟨⟨hna, hnr, ?_, ?_⟩, ?_⟩
+      · intro x hx hinc
+        have : StallSpec g s := ⟨hna, fun y hy hc => hnr y hy ⟨hc.1, hc.2.1⟩, Or.inl ⟨x, hx, hinc⟩⟩
+        rw [(isStalled_iff g s).mpr this] at hns; exact absurd hns (by simp)
+      · intro x hx hp
+        have : StallSpec g s := ⟨hna, fun y hy hc => hnr y hy ⟨hc.1, hc.2.1⟩, Or.inr ⟨x, hx, hp⟩⟩
+        rw [(isStalled_iff g s).mpr this] at hns; exact absurd hns (by simp)
+      · simp only [if_neg hst]
+        split <;> exact checkStalled_pool g s
+
 end CylcModel.Sched
